@@ -245,6 +245,42 @@ def _systematic() -> list[dict]:
         out.append(_base(steps=[_search(), {'k': 'react', 'ref': 's0', 'how': 'async', 'who': 'listener', 'suspend': susp,
                                             'op': 'none'},
                                 {'k': 'remove', 'by': 'object', 'ref': 's0', 'at': _anchor('s0', 'created', 0.0), 'hops': 1}]))
+    # the session is lost and regained while requests are live, then new requests are made (appended last)
+    late_reply = {'k': 'reply', 'ticket': 'ref', 'dup': 0, 'mode': 'send', 'peer': 'bob', 'ref': 's0', 'hops': 0,
+                  'at': {'abs': 3.0}}
+    for mode in ('rst', 'eof', 'cut'):
+        for typ2 in ('net', 'room', 'user'):
+            for typ1 in ('net', 'room', 'user'):
+                if mode != 'rst' and typ1 != typ2:
+                    continue
+                out.append(_base(request_timeout=8, steps=[
+                    _search(typ1), {'k': 'relogin', 'mode': mode, 'at': {'abs': 1.0}, 'hops': 0},
+                    _search(typ2, {'abs': 2.0}), copy.deepcopy(late_reply)]))
+        # wishlist requests live across the loss; the server announces the interval again after the logon
+        out.append(_base(request_timeout=8, wishlist=['wish-0', 'wish-1'], rounds=3, steps=[
+            {'k': 'wishlist', 'at': {'abs': 0.0}}, {'k': 'relogin', 'mode': mode, 'at': {'abs': 1.0}, 'hops': 0},
+            _search('net', {'abs': 2.0}),
+            {'k': 'reply', 'ticket': 'ref', 'dup': 0, 'mode': 'send', 'peer': 'bob', 'ref': 'w0.0', 'hops': 0,
+             'at': {'abs': 3.0}}]))
+    out.append(_base(request_timeout=0, tail=600, steps=[
+        _search(), {'k': 'relogin', 'mode': 'rst', 'at': {'abs': 1.0}, 'hops': 0}, _search('net', {'abs': 2.0}),
+        copy.deepcopy(late_reply)]))
+    out.append(_base(request_timeout=8, steps=[
+        _search(), _search('user', {'abs': 0.5}), {'k': 'relogin', 'mode': 'rst', 'down': 2.0, 'at': {'abs': 1.0}, 'hops': 0},
+        _search('net', {'abs': 2.0}), _search('room', {'abs': 4.0}), _search('net', {'abs': 5.0}),
+        dict(copy.deepcopy(late_reply), at={'abs': 6.0})]))
+    out.append(_base(request_timeout=8, steps=[
+        _search(), {'k': 'relogin', 'mode': 'rst', 'at': {'abs': 1.0}, 'hops': 0},
+        {'k': 'relogin', 'mode': 'eof', 'at': {'abs': 3.0}, 'hops': 0}, _search('net', {'abs': 4.0}),
+        dict(copy.deepcopy(late_reply), at={'abs': 5.0})]))
+    # the same searches through the command API (client.execute), alone and mixed with the manager's methods
+    cmd = lambda typ, at: dict(_search(typ, at), api='command')     # noqa: E731
+    out.append(_base(steps=[cmd('net', {'abs': 0.0}), dict(copy.deepcopy(late_reply), at={'abs': 1.0})]))
+    out.append(_base(steps=[cmd('net', {'abs': 0.0}), cmd('user', {'abs': 1.0}), cmd('room', {'abs': 2.0}),
+                            dict(copy.deepcopy(late_reply), at={'abs': 3.0})]))
+    out.append(_base(steps=[_search(), cmd('net', {'abs': 1.0}), dict(copy.deepcopy(late_reply), at={'abs': 2.0})]))
+    out.append(_base(steps=[cmd('net', {'abs': 0.0}), _search('net', {'abs': 1.0}),
+                            dict(copy.deepcopy(late_reply), at={'abs': 2.0})]))
     return out
 
 
@@ -323,6 +359,20 @@ def gen_random(seed: int, idx: int, nsteps: int) -> dict:
         slabels.append(f's{i}')
         labels.append(f's{i}')
         budget -= 1
+    if budget >= 2 and slabels and rng.random() < 0.22:
+        # the session is lost and regained after the first request(s) were made; at least one more search follows
+        t_first = [stp['at']['abs'] for stp in steps if stp['k'] == 'search' and 'abs' in stp['at']]
+        t_drop = (min(t_first) if t_first else 0.0) + rng.choice([0.5, 1.0, 1.0, 2.0])
+        rl = {'k': 'relogin', 'mode': rng.choice(['rst', 'rst', 'eof', 'cut']), 'at': {'abs': t_drop}, 'hops': 0}
+        if rng.random() < 0.3:
+            rl['down'] = rng.choice([0.5, 2.0])
+        steps.append(rl)
+        i = len(slabels)
+        steps.append(_search(rng.choice(['net', 'net', 'room', 'user']),
+                             {'abs': t_drop + rl.get('down', 0.0) + rng.choice([0.5, 1.0, 2.0])}, rng.choice([0, 1, 2])))
+        slabels.append(f's{i}')
+        labels.append(f's{i}')
+        budget -= 2
     if budget > 0 and labels and rng.random() < 0.3:
         budget -= 1
         how = rng.choice(['sync', 'async', 'async'])
@@ -380,6 +430,10 @@ def gen_random(seed: int, idx: int, nsteps: int) -> dict:
         st['at'] = at
         st['hops'] = hops
         steps.append(st)
+    if rng.random() < 0.05:
+        for stp in steps:
+            if stp['k'] == 'search' and rng.random() < 0.6:
+                stp['api'] = 'command'
     sc['steps'] = steps
     no_timer = (sc['request_timeout'] == 0 and nsearch > 0) or (use_wish and sc['wishlist_request_timeout'] == 0)
     if no_timer:
@@ -1387,7 +1441,7 @@ def _trace(run: _Run, limit: int = 70, loop_exceptions=()) -> list:
     for e in run.log:
         d = {'t': round(e['t'] - run.T0, 6), 'it': e['it'], 'k': e['k'], 'registered': [tk for _, _, tk in e['reg']]}
         for k in ('rid', 'ticket', 'i', 'kind', 'by', 'outcome', 'tau', 'marker', 'result_ticket', 'op', 'why',
-                  'interval', 'stored'):
+                  'interval', 'stored', 'via', 'mode', 'label'):
             if k in e:
                 d[k] = e[k]
         if 'rid' in d:
